@@ -27,7 +27,8 @@ FR_DERIVES = ['to_frame', 'to_frame_go', 'to_frame_he', 'ctor_static', 'ctor_go'
               'index_ref', 'assign', 'roll', 'shift', 'concat_self', 'to_frame_go_then_go', 'columns_copy',
               'iter_array_hold', 'relabel_index', 'fillna', 'round', 'level_add_drop_index', 'level_add_columns', 'level_add_drop_columns',
               'neg', 'abs', 'clip', 'cumsum', 'dropna', 'isin', 'rehierarch_index', 'unset_index', 'bloc_assign', 'level_add_index', 'level_drop_index',
-              'level_drop_index', 'drop_row_loc', 'drop_rows_loc_list', 'drop_rows_iloc', 'drop_rows_iloc_none', 'drop_bool_series']
+              'level_drop_index', 'drop_row_loc', 'drop_rows_loc_list', 'drop_rows_iloc', 'drop_rows_iloc_none', 'drop_bool_series',
+              'relabel_flat_index', 'relabel_flat_columns']
 
 
 def index_model_from(ix):
@@ -134,7 +135,7 @@ class FrameOps:
             return str(x) if (m.unit != 'D' or ch.chance(0.5)) else {'d': str(x) + 'T00:00'}
         if kind == 'odd':
             if m.hier:
-                return 'AzQx'[:m.depth]  # a plain string as long as the depth is not a tuple of labels
+                return 'AzQx'[:m.depth] if ch.chance(0.6) else {'bytes': 'AzQx'[:m.depth]}  # a plain string (or bytes) as long as the depth is not a tuple of labels
             return ch.choice([{'range': [0, 2, 1]}, {'range': [0, 3, 1]}, {'fset': [1, 2]}, {'nptype': 'ndarray'}, {'sfcls': 'Series'}])
         if kind == 'dup':
             return enc(ch.choice(m.raw))
@@ -528,7 +529,8 @@ class FrameOps:
             del self.ents[e.h]
             return 'accepted-bad'
         if exp == 'may':
-            self._readable_after_accept(e, site, cls, labels=new_keys)
+            one = len(supplied_keys) == 1
+            self._readable_after_accept(e, site, cls, labels=(supplied_keys if one else new_keys), single=one)
             del self.ents[e.h]
             return 'accepted-unmodelled'
         for k, c in zip(new_keys, new_cells):
@@ -869,6 +871,14 @@ class FrameOps:
             if how == 'level_add_drop_index':
                 # a level is added to, then dropped from, the index only: the columns pass through untouched
                 return obj.relabel_level_add(index='outer').relabel_level_drop(index=1)
+            if how == 'relabel_flat_index':
+                if obj.index.depth < 2:
+                    raise SimulatedFailure('index is not hierarchical')
+                return obj.relabel_flat(index=True)  # the columns pass through
+            if how == 'relabel_flat_columns':
+                if obj.columns.depth < 2:
+                    raise SimulatedFailure('columns are not hierarchical')
+                return obj.relabel_flat(columns=True)
             if how == 'drop_row_loc':
                 # only rows are dropped: the (grow-only) columns pass through and must still not be shared
                 return obj.drop.loc[obj.index.values[0] if obj.index.depth == 1 else tuple(obj.index.values[0])]
